@@ -193,6 +193,18 @@ def subst(t: Any, mapping: Dict[Term, Term]) -> Any:
     return t
 
 
+def _reduce_fields(t: Any) -> Any:
+    """x.f where x is a constructed object whose field f is known (after a parameter was bound to the object)"""
+    if not isinstance(t, tuple) or not t:
+        return t
+    r = tuple(_reduce_fields(x) for x in t)
+    if len(r) == 3 and r[0] == "attr" and isinstance(r[1], tuple) and r[1][:1] == ("new",) and isinstance(r[2], str):
+        for f, v in r[1][2]:
+            if f == r[2]:
+                return v
+    return r
+
+
 def splice_literals(t: Any, _memo: Optional[Dict[int, Any]] = None) -> Any:
     """after parameters were bound: `[f(v) for v in (a, b)]` is `[f(a), f(b)]`, `[x, *[y, z]]` is `[x, y, z]`, and a
     bound method that was handed to a helper and called there (`visitor(node)` with visitor := self.generic_visit)
@@ -840,6 +852,11 @@ class FuncAnalysis:
             for f, v in t[2]:
                 if f == name:
                     return v
+            if isinstance(t[1], str) and ":" in t[1]:
+                rc_ = self.model.classes.get(t[1])
+                pm_ = self.model.find_method(rc_, name) if rc_ is not None else None
+                if pm_ is not None and pm_.is_property:
+                    return self._inline(pm_, [t], [], ("site", 0, 0), depth)
         if t[0] == "upd":
             for f, v in t[2]:
                 if f == name:
@@ -1028,6 +1045,9 @@ class FuncAnalysis:
                 return self._inline(r, args, kws, site, depth)
             if isinstance(r, ClassInfo):
                 self.ctx.resolved_calls += 1
+                rec = self._record_new(r, args, kws, depth)
+                if rec is not None:
+                    return rec
                 return ("app", ("global", r.qual.replace(":", ".")), tuple(args), tuple(kws), site)
             if tgt in ("ast.NodeTransformer.generic_visit", "ast.NodeVisitor.generic_visit") and len(args) == 2:
                 self.ctx.resolved_calls += 1
@@ -1037,6 +1057,14 @@ class FuncAnalysis:
         # method on a value: x.visit(t) where x = SomeTransformer()
         if callee[0] == "attr":
             recv = callee[1]
+            if recv[0] == "new" and isinstance(recv[1], str) and ":" in recv[1]:
+                rc_ = m.classes.get(recv[1])
+                tm_ = m.find_method(rc_, callee[2]) if rc_ is not None else None
+                if tm_ is not None and not tm_.is_property:
+                    self.ctx.resolved_calls += 1
+                    if "staticmethod" in tm_.decorators:
+                        return self._inline(tm_, list(args), kws, site, depth)
+                    return self._inline(tm_, [recv] + list(args), kws, site, depth)
             if recv[0] == "app" and recv[1][0] == "global":
                 r = m.lookup_target(recv[1][1])
                 if isinstance(r, ClassInfo) and m.is_visitor(r) and callee[2] == "visit" and args:
@@ -1044,6 +1072,117 @@ class FuncAnalysis:
                     return ("tvisit", r.qual, args[0])
         self.ctx.unresolved_calls.append(f"{self.fi.qual}:{getattr(e, 'lineno', '?')} {show(callee)}")
         return ("app", callee, tuple(args), tuple(kws), site)
+
+    def _record_new(self, ci: ClassInfo, args: List[Term], kws, depth: int) -> Optional[Term]:
+        """An instance of a *private record class* of the package - a dataclass without a hand-written __init__, or a
+        class whose __init__ only stores expressions of its parameters in attributes - as ('new', <class>, fields).
+        Fields that some method of the class changes (store outside __init__, mutator call, item store) are left out:
+        reading them yields the opaque attribute, never a stale initial value."""
+        m = self.model
+        if m.is_visitor(ci) or not (ci.name.startswith("_") or ci.parent_func is not None) or ci.name.startswith("__"):
+            return None
+        if any(k is None for k, _v in kws) or any(isinstance(a_, tuple) and len(a_) == 3 and a_[0] == "op" and a_[1] == "Starred" for a_ in args):
+            return None
+        cache = self.ctx.__dict__.setdefault("_record_shapes", {})
+        shape = cache.get(ci.qual, False)
+        if shape is False:
+            shape = self._record_shape(ci)
+            cache[ci.qual] = shape
+        if shape is None:
+            return None
+        kind, params, stores, mutated = shape
+        bind: Dict[Term, Term] = {}
+        names = [p_ for p_, _d in params]
+        if len(args) > len(names):
+            return None
+        for p_, a_ in zip(names, args):
+            bind[("param", p_)] = a_
+        for k_, v_ in kws:
+            if k_ not in names or ("param", k_) in bind:
+                return None
+            bind[("param", k_)] = v_
+        for p_, d_ in params:
+            if ("param", p_) not in bind:
+                if d_ is None:
+                    return None
+                bind[("param", p_)] = d_
+        fields = []
+        for f_, vt in stores:
+            if f_ in mutated:
+                continue
+            fields.append((f_, subst(vt, bind)))
+        return ("new", ci.qual, tuple(fields))
+
+    def _record_shape(self, ci: ClassInfo):
+        m = self.model
+        init = ci.methods.get("__init__")
+        decos = [dotted(d) or "" for d in ci.node.decorator_list]
+        is_dc = any(d.split(".")[-1] == "dataclass" or (isinstance(dn, ast.Call) and (dotted(dn.func) or "").split(".")[-1] == "dataclass") for d, dn in zip(decos, ci.node.decorator_list))
+        if ci.base_names and not all(b.split(".")[-1] in ("object", "Generic") or b.startswith("Generic[") for b in ci.base_names):
+            return None
+        params: List[Tuple[str, Optional[Term]]] = []
+        stores: List[Tuple[str, Term]] = []
+        if init is None:
+            if not is_dc:
+                if any(True for _ in ci.methods) and not ci.node.body:
+                    return None
+                # a plain class without __init__: no fields
+                params, stores = [], []
+            else:
+                for st in ci.node.body:
+                    if isinstance(st, ast.AnnAssign) and isinstance(st.target, ast.Name):
+                        d_ = None
+                        if st.value is not None:
+                            d_ = ("const", st.value.value) if isinstance(st.value, ast.Constant) else ("top", f"default of {ci.name}.{st.target.id}")
+                        params.append((st.target.id, d_))
+                        stores.append((st.target.id, ("param", st.target.id)))
+                if "__post_init__" in ci.methods:
+                    return None
+        else:
+            a = init.node.args
+            if a.vararg or a.kwarg or a.posonlyargs:
+                return None
+            pos = [x.arg for x in a.args][1:]
+            dfl = list(a.defaults)
+            ifa = self.ctx.analysis(init)
+            for i, p_ in enumerate(pos):
+                j = i - (len(pos) - len(dfl))
+                params.append((p_, strip_sites(ifa.term_of(dfl[j], ifa.cfg.entry)) if j >= 0 else None))
+            for p_, d_ in zip([x.arg for x in a.kwonlyargs], a.kw_defaults):
+                params.append((p_, strip_sites(ifa.term_of(d_, ifa.cfg.entry)) if d_ is not None else None))
+            selfn = init.pos_params[0] if init.pos_params else "self"
+            for st in init.node.body:
+                if isinstance(st, ast.Expr) and isinstance(st.value, ast.Constant):
+                    continue
+                tg = st.targets[0] if isinstance(st, ast.Assign) and len(st.targets) == 1 else (st.target if isinstance(st, ast.AnnAssign) and st.value is not None else None)
+                if not (isinstance(tg, ast.Attribute) and isinstance(tg.value, ast.Name) and tg.value.id == selfn):
+                    return None
+                if not ifa.cfg.has_node(st):
+                    return None
+                stores.append((tg.attr, strip_sites(ifa.term_of(st.value, ifa.cfg.node_of(st)))))
+        # fields some method changes
+        mutated = set()
+        MUT = {"append", "extend", "insert", "pop", "remove", "clear", "update", "add", "discard", "setdefault", "popitem", "sort", "reverse", "appendleft", "popleft", "__setitem__"}
+        for meth in ci.methods.values():
+            if not meth.pos_params:
+                continue
+            sn = meth.pos_params[0]
+            for x in ast.walk(meth.node):
+                if meth.name != "__init__" and isinstance(x, ast.Attribute) and isinstance(x.ctx, (ast.Store, ast.Del)) and isinstance(x.value, ast.Name) and x.value.id == sn:
+                    mutated.add(x.attr)
+                if isinstance(x, ast.Call) and isinstance(x.func, ast.Attribute) and x.func.attr in MUT:
+                    r_ = x.func.value
+                    while isinstance(r_, (ast.Subscript, ast.Call)):
+                        r_ = r_.value if isinstance(r_, ast.Subscript) else (r_.func.value if isinstance(r_.func, ast.Attribute) else None)
+                        if r_ is None:
+                            break
+                    if isinstance(r_, ast.Attribute) and isinstance(r_.value, ast.Name) and r_.value.id == sn:
+                        mutated.add(r_.attr)
+                if isinstance(x, (ast.Subscript,)) and isinstance(x.ctx, (ast.Store, ast.Del)) and isinstance(x.value, ast.Attribute) and isinstance(x.value.value, ast.Name) and x.value.value.id == sn:
+                    mutated.add(x.value.attr)
+                if isinstance(x, ast.AugAssign) and isinstance(x.target, ast.Attribute) and isinstance(x.target.value, ast.Name) and x.target.value.id == sn:
+                    mutated.add(x.target.attr)
+        return ("dataclass" if is_dc else "init", params, stores, mutated)
 
     def _method_call(self, ci: ClassInfo, name: str, self_t: Term, args, kws, site, depth, skip_self=False) -> Optional[Term]:
         m = self.model
@@ -1129,6 +1268,8 @@ class FuncAnalysis:
         for p in callee.params:
             binding.setdefault(("param", p), ("top", f"unbound parameter {p} of {callee.name}"))
         out = subst(rt, binding)
+        if any(isinstance(v, tuple) and v and v[0] == "new" for v in binding.values()):
+            out = _reduce_fields(out)
         # normalisations that only matter when a vararg tuple, a bound method or a starred literal is involved
         need = a.vararg is not None or any(isinstance(v, tuple) and len(v) == 3 and v[0] == "attr" and v[2] in ("visit", "generic_visit") for v in binding.values())
         if not need and callee.cls is None and self.fi.cls is not None and self.fi.pos_params:
